@@ -10,6 +10,8 @@ Driver for correspondence stream `cfg` (property C08).  Requests:
   vecgen  sym blocked nc0 nc1 <bs> <bidx> <nz> <blocks>
                                        -> canonical triples | err-key       (generic core + reorder)
   p2b     N nc r                       -> nat                               (packed -> blocked index)
+  skipset <bidx>                       -> 0/1 per data position: block skipped by the symmetric vector core
+  updslots f <info: has g d sz ofs>    -> `ofs:end:deriv` of every assignment of the generated update(f=…)
   precomp repaired fuel <linear_deps> <deps> <isUpd> <basisScope> -> list     (VForm.dependency_analysis: self.precomp)
 `<nz>` = the block/entry positions `S.nonzero()` (full pattern, library order) as `i j` pairs,
 `<vals>` the oracle entries `asm.entry(i,j)` for them (exact rationals), `<blocks>` lists of
@@ -18,14 +20,30 @@ Driver for correspondence stream `cfg` (property C08).  Requests:
 import Pyiga.Proto
 import Pyiga.Model.Assembler
 import Pyiga.Model.Layout
+import Std.Data.HashMap
 
 open Pyiga Pyiga.Proto Pyiga.Index Pyiga.ML Pyiga.Asm
 
 def pPairs : P (List (Nat × Nat)) := list (pair nat nat)
 
+/-- `canonical` in O(n log n): stable sort by position, adjacent duplicates summed in list order
+(same result as `Asm.canonical`, which is quadratic) -/
+def canonicalFast (t : Triples Rat) : Triples Rat :=
+  let sorted := t.mergeSort (fun a b => a.1 < b.1 || (a.1 == b.1 && a.2.1 ≤ b.2.1))
+  (sorted.foldl (fun (acc : List (Nat × Nat × Rat)) x =>
+    match acc with
+    | y :: ys => if y.1 = x.1 ∧ y.2.1 = x.2.1 then (y.1, y.2.1, y.2.2 + x.2.2) :: ys else x :: acc
+    | [] => [x]) []).reverse
+
 def showTrip (t : Triples Rat) : String :=
   showList (fun (x : Nat × Nat × Rat) => s!"{x.1},{x.2.1},{showRat x.2.2}")
-    ((canonical t).filter (fun x => x.2.2 ≠ 0))
+    ((canonicalFast t).filter (fun x => x.2.2 ≠ 0))
+
+def mkBlkMap (nz : List (Nat × Nat)) (blocks : List (List Rat)) : Std.HashMap (Nat × Nat) (List Rat) :=
+  (nz.zip blocks).foldl (fun m p => m.insertIfNew p.1 p.2) {}
+
+def mkValMap (nz : List (Nat × Nat)) (vals : List Rat) : Std.HashMap (Nat × Nat) Rat :=
+  (nz.zip vals).foldl (fun m p => m.insertIfNew p.1 p.2) {}
 
 def lookupVal (nz : List (Nat × Nat)) (vals : List Rat) (i j : Nat) : Rat :=
   match (nz.zip vals).find? (fun p => p.1 = (i, j)) with
@@ -57,18 +75,23 @@ def request : P String := do
       let sym ← bool; let L ← nat; let nz ← pPairs; let vals ← list rat
       if nz.length ≠ vals.length then failure
       if L = 1 && sym then pure "err-assertion"
-      else pure (showTrip (assembleEntries nz sym (lookupVal nz vals)))
+      else
+        let vm := mkValMap nz vals
+        pure (showTrip (assembleEntries nz sym (fun i j => vm.getD (i, j) 0)))
   | "rows" => do
       let bs ← pPairs; let bidx ← list pPairs; let R ← list nat
       let nz ← pPairs; let vals ← list rat
       if nz.length ≠ vals.length || bs.length ≠ bidx.length then failure
-      pure (showTrip (assemblePartialRows { bs := bs, bidx := bidx } R (lookupVal nz vals)))
+      let vm := mkValMap nz vals
+      pure (showTrip (assemblePartialRows { bs := bs, bidx := bidx } R (fun i j => vm.getD (i, j) 0)))
   | "vecbsr" => do
       let sym ← bool; let L ← nat; let br ← nat; let bc ← nat
       let nz ← pPairs; let blocks ← list (list rat)
       if nz.length ≠ blocks.length then failure
       if sym && (L = 1 || br ≠ bc) then pure "err-assertion"
-      else pure (showTrip (assembleVecBsr nz sym br bc (lookupBlk nz blocks)))
+      else
+        let bm := mkBlkMap nz blocks
+        pure (showTrip (assembleVecBsr nz sym br bc (fun i j => bm.getD (i, j) [])))
   | "vecgen" => do
       let sym ← bool; let blocked ← bool; let nc0 ← nat; let nc1 ← nat
       let bs ← pPairs; let bidx ← list pPairs
@@ -79,10 +102,23 @@ def request : P String := do
       else
         let transp := tr.map (·.map (·.getD 0))
         let rowsD := bs.map (·.1); let colsD := bs.map (·.2)
-        let blk := fun (i j : List Nat) => lookupBlk nz blocks (toSeq i rowsD) (toSeq j colsD)
+        let bm := mkBlkMap nz blocks
+        let blk := fun (i j : List Nat) => bm.getD (toSeq i rowsD, toSeq j colsD) []
         let ws := coreVecAllWrites bidx transp sym nc0 nc1 blk
-        if blocked then pure (showTrip (blockedTriples bs bidx nc1 nc0 ws))
-        else pure (showTrip (packedTriples bs bidx nc1 nc0 ws))
+        -- last write wins, as `readEntries`
+        let rm : Std.HashMap (List Nat × Nat) Rat := ws.foldl (fun m w => m.insert w.1 w.2) {}
+        let rd := fun (μ : List Nat) (s : Nat) => rm.getD (μ, s) 0
+        if blocked then pure (showTrip (blockedTriplesWith bs bidx nc1 nc0 rd))
+        else pure (showTrip (packedTriplesWith bs bidx nc1 nc0 rd))
+  | "skipset" => do
+      let bidx ← list pPairs
+      pure (showList (fun (b : Bool) => if b then "1" else "0") (coreVecSkipped bidx))
+  | "updslots" => do
+      let f ← nat
+      let info ← list (do
+        let has ← bool; let g ← nat; let d ← nat; let sz ← nat; let ofs ← nat
+        pure ((⟨⟨0, [], false⟩, if has then some (g, d) else none⟩ : Pyiga.Layout.GVar), sz, ofs))
+      pure (showList (fun (r : Nat × Nat × Nat) => s!"{r.1}:{r.2.1}:{r.2.2}") (Pyiga.Layout.updateRanges info f))
   | "precomp" => do
       let repaired ← bool; let fuel ← nat
       let lin ← list nat; let deps ← list (list nat); let upd ← list bool; let basis ← list bool
